@@ -54,6 +54,44 @@ type c19Env struct {
 	bad    []crypto.Signature   // invalid encoding, wrong length
 	stressKmac hash.Hasher
 	stressBLS  hash.Hasher
+	stressBLS2 hash.Hasher // a second shared hasher with another tag (per-index hashers)
+
+	mu   sync.Mutex
+	viol string // first contract violation the harness can judge by itself (argument modified, ...)
+	kept []c19Kept
+}
+
+// results handed out by Sign / ComputeHash are values: kept un-copied, looked at again at the end
+type c19Kept struct {
+	what string
+	raw  []byte
+	hex  string
+}
+
+func (env *c19Env) fail(f string, a ...any) {
+	env.mu.Lock()
+	if env.viol == "" {
+		env.viol = fmt.Sprintf(f, a...)
+	}
+	env.mu.Unlock()
+}
+
+func (env *c19Env) keep(what string, raw []byte) {
+	env.mu.Lock()
+	if len(env.kept) < 400 {
+		env.kept = append(env.kept, c19Kept{what, raw, hx(raw)})
+	}
+	env.mu.Unlock()
+}
+
+func (env *c19Env) checkKept() {
+	env.mu.Lock()
+	defer env.mu.Unlock()
+	for _, k := range env.kept {
+		if hx(k.raw) != k.hex && env.viol == "" {
+			env.viol = fmt.Sprintf("the result of an earlier %s (%s) reads %s after later calls: results are not fresh buffers", k.what, k.hex, hx(k.raw))
+		}
+	}
 }
 
 var (
@@ -69,7 +107,7 @@ func init() {
 		PropCheck: "prop_bad_ids",
 		Gen:       c19Gen,
 		Run:       c19Run,
-		Rule:      "mixes of the listed operations (KMAC ComputeHash, BLS Sign/Verify, PoP, SPoCK, aggregate and batch verification, ECDSA Sign/Verify) over shared keys, messages, valid/foreign/malformed signatures and one shared KMAC128 hasher; snapshot of every shared object before/after each operation run alone, then 2-8 goroutines x repetitions compared with the sequential results; non-trivial if at least one operation returned a signature or true; distinct by (seed, op list, goroutines)",
+		Rule:      "mixes of the listed operations (KMAC ComputeHash, BLS Sign/Verify, PoP generation and verification through the package-level PoP hasher, SPoCK, aggregate and batch verification, ECDSA Sign/Verify) over shared keys, messages (random, and the shapes empty / 1 byte / one cSHAKE block / 5000 bytes), valid/foreign/malformed signatures and one shared KMAC128 hasher; snapshot of every shared object before/after each operation run alone, then 2-8 (some cases 16 and 33) goroutines x repetitions compared with the sequential results; the list arguments (keys, messages, hashers, signatures) are checked element by element after every call, signatures / digests handed out are kept un-copied and re-read at the end; stress: distinct short inputs on one shared hasher, aggregate verification with repeated keys and hashers that differ per index, FIRST USE by 8 goroutines at once of key objects fresh from every constructor (decoded, aggregated, removed-from, derived, identity; BLS public and private, ECDSA public and private on both curves) by PoP / Encode / Verify / Sign / SPoCK / aggregate / batch verification and of a new KMAC128 hasher; cold: the same in a child process with nothing warmed up, incl. the package-level PoP hasher; the whole workload is repeated under the race detector; non-trivial if at least one operation returned a signature or true; distinct by (seed, op list, goroutines)",
 		Shard:     60,
 	})
 }
@@ -78,6 +116,7 @@ func c19Setup(in c19In) (*c19Env, error) {
 	env := &c19Env{in: in}
 	env.stressKmac, _ = hash.NewKMAC_128([]byte("0123456789abcdef0123456789abcdef"), []byte("c19"), 32)
 	env.stressBLS = crypto.NewExpandMsgXOFKMAC128("c19-stress")
+	env.stressBLS2 = crypto.NewExpandMsgXOFKMAC128("c19-stress-2")
 	r := rand.New(rand.NewPCG(uint64(len(in.Seed)), 77))
 	seed := unhx(in.Seed)
 	env.kmac = crypto.NewExpandMsgXOFKMAC128("C19-harness")
@@ -239,7 +278,10 @@ func (env *c19Env) apply(o c19Op) string {
 						}
 						if r%30 == 0 {
 							sg, _ := env.sks[0].Sign(m, env.stressBLS)
-							if !bytes.Equal(sg, wantSig) {
+							// every goroutine its own key: PoP generation shares the package-level PoP hasher
+							kk := g % len(env.sks)
+							pp, _ := crypto.BLSGeneratePOP(env.sks[kk])
+							if !bytes.Equal(sg, wantSig) || !bytes.Equal(pp, env.pops[kk]) {
 								mu.Lock()
 								bad++
 								mu.Unlock()
@@ -269,9 +311,13 @@ func (env *c19Env) apply(o c19Op) string {
 					k = b
 				}
 				m := []byte(fmt.Sprintf("job %d message %d", g, i/2*2+i%2*(g%2)))
-				sg, _ := k.Sign(m, env.stressBLS)
+				hh := env.stressBLS
+				if (i+g)%3 == 0 {
+					hh = env.stressBLS2 // the hashers differ per index (also for equal messages)
+				}
+				sg, _ := k.Sign(m, hh)
 				sigs = append(sigs, sg)
-				j.pks, j.msgs, j.hs = append(j.pks, k.PublicKey()), append(j.msgs, m), append(j.hs, env.stressBLS)
+				j.pks, j.msgs, j.hs = append(j.pks, k.PublicKey()), append(j.msgs, m), append(j.hs, hh)
 			}
 			j.sig, _ = crypto.AggregateBLSSignatures(sigs)
 			if ok, err := crypto.VerifyBLSSignatureManyMessages(j.pks, j.sig, j.msgs, j.hs); !ok || err != nil {
@@ -343,18 +389,115 @@ func (env *c19Env) apply(o c19Op) string {
 			}
 			close(start)
 			wg.Wait()
+			if trial%4 != 0 {
+				continue
+			}
+			// second wave, other first uses: a decoded PRIVATE key whose first use is concurrent Sign; fresh
+			// key objects first used by SPoCK / aggregate / batch verification; decoded ECDSA keys (both
+			// curves) first used by concurrent Sign / Verify; a new KMAC128 hasher whose first use is
+			// concurrent ComputeHash; the identity key
+			fsk2, _ := crypto.DecodePrivateKey(crypto.BLSBLS12381, skb)
+			var fr [4]crypto.PublicKey
+			for i := range fr {
+				fr[i], _ = crypto.DecodePublicKey(crypto.BLSBLS12381, pkb)
+			}
+			idk := crypto.IdentityBLSPublicKey()
+			fk, _ := hash.NewKMAC_128([]byte("0123456789abcdef0123456789abcdef"), []byte("c19"), 32)
+			wantK := env.stressKmac.ComputeHash(msg)
+			type ecFresh struct {
+				sk  crypto.PrivateKey
+				pk  crypto.PublicKey
+				sig crypto.Signature
+			}
+			var ecf []ecFresh
+			for k := range env.ecsk {
+				alg := env.ecsk[k].Algorithm()
+				dsk, e1 := crypto.DecodePrivateKey(alg, env.ecsk[k].Encode())
+				dpk, e2 := crypto.DecodePublicKey(alg, env.ecpk[k].Encode())
+				if e1 != nil || e2 != nil {
+					return "stress-ecdsa-decode-failed"
+				}
+				ecf = append(ecf, ecFresh{dsk, dpk, env.ecsigs[k][0]})
+			}
+			start = make(chan struct{})
+			for g := 0; g < G; g++ {
+				wg.Add(1)
+				go func(g int) {
+					defer wg.Done()
+					<-start
+					ok, err := true, error(nil)
+					switch g % 8 {
+					case 0, 4:
+						var sg crypto.Signature
+						sg, err = fsk2.Sign(msg, env.stressBLS)
+						ok = bytes.Equal(sg, sigAlone)
+					case 1:
+						ok, err = crypto.SPOCKVerify(fr[0], sigAlone, fr[1], sigAlone)
+					case 2:
+						ok, err = crypto.VerifyBLSSignatureOneMessage([]crypto.PublicKey{fr[2]}, sigAlone, msg, env.stressBLS)
+					case 3:
+						var bs []bool
+						bs, err = crypto.BatchVerifyBLSSignaturesOneMessage([]crypto.PublicKey{fr[3], fr[3]}, []crypto.Signature{sigAlone, popb}, msg, env.stressBLS)
+						ok = len(bs) == 2 && bs[0] && !bs[1]
+					case 5:
+						for _, e := range ecf {
+							v, verr := e.pk.Verify(e.sig, env.msgs[0], hash.NewSHA2_256())
+							if !v || verr != nil {
+								ok, err = v, verr
+							}
+						}
+					case 6:
+						for _, e := range ecf {
+							sg, serr := e.sk.Sign(msg, hash.NewSHA3_256())
+							if serr != nil {
+								ok, err = false, serr
+								continue
+							}
+							if v, verr := e.pk.Verify(sg, msg, hash.NewSHA3_256()); !v || verr != nil {
+								ok, err = v, verr
+							}
+						}
+					case 7:
+						ok = bytes.Equal(fk.ComputeHash(msg), wantK)
+						if v, verr := idk.Verify(sigAlone, msg, env.stressBLS); v || verr != nil {
+							ok, err = false, verr
+						}
+						if v, verr := crypto.BLSVerifyPOP(idk, popb); v || verr != nil {
+							ok, err = false, verr
+						}
+					}
+					if !ok || err != nil {
+						mu.Lock()
+						bad++
+						mu.Unlock()
+					}
+				}(g)
+			}
+			close(start)
+			wg.Wait()
 		}
 		if bad > 0 {
 			return fmt.Sprintf("stress-mismatch:%d", bad)
 		}
 		return "stress-ok"
 	case "kmac":
-		return hx(env.kmac.ComputeHash(env.msgs[o.M]))
+		h := env.kmac.ComputeHash(env.msgs[o.M])
+		env.keep("KMAC128 ComputeHash", h)
+		return hx(h)
 	case "blssign":
 		s, err := env.sks[o.K].Sign(env.msgs[o.M], env.kmac)
 		if err != nil {
 			return "err"
 		}
+		env.keep("BLS Sign", s)
+		return hx(s)
+	case "popgen":
+		// BLS Sign of the key bytes under the package-level PoP hasher, which BLSVerifyPOP shares
+		s, err := crypto.BLSGeneratePOP(env.sks[o.K])
+		if err != nil {
+			return "err"
+		}
+		env.keep("BLSGeneratePOP", s)
 		return hx(s)
 	case "blsverify":
 		return res(env.pks[o.K].Verify(env.blsSig(o), env.msgs[o.M], env.kmac))
@@ -390,7 +533,18 @@ func (env *c19Env) apply(o c19Op) string {
 		} else if o.S >= 2 {
 			agg = env.bad[o.S-2]
 		}
-		return res(crypto.VerifyBLSSignatureOneMessage(env.pks, agg, env.msgs[o.M], env.kmac))
+		pks := append([]crypto.PublicKey{}, env.pks...)
+		aggCopy := hx(agg)
+		r := res(crypto.VerifyBLSSignatureOneMessage(pks, agg, env.msgs[o.M], env.kmac))
+		for i := range pks {
+			if pks[i] != env.pks[i] {
+				env.fail("VerifyBLSSignatureOneMessage changed the caller's key list (position %d)", i)
+			}
+		}
+		if hx(agg) != aggCopy {
+			env.fail("VerifyBLSSignatureOneMessage modified the signature argument")
+		}
+		return r
 	case "aggn":
 		var ss []crypto.Signature
 		var ms [][]byte
@@ -410,7 +564,15 @@ func (env *c19Env) apply(o c19Op) string {
 		} else if o.S >= 2 {
 			agg = env.bad[o.S-2]
 		}
-		return res(crypto.VerifyBLSSignatureManyMessages(env.pks, agg, ms, hs))
+		pks := append([]crypto.PublicKey{}, env.pks...)
+		msCopy := append([][]byte{}, ms...)
+		r := res(crypto.VerifyBLSSignatureManyMessages(pks, agg, ms, hs))
+		for i := range pks {
+			if pks[i] != env.pks[i] || hs[i] != env.kmac || len(ms[i]) != len(msCopy[i]) || (len(ms[i]) > 0 && &ms[i][0] != &msCopy[i][0]) {
+				env.fail("VerifyBLSSignatureManyMessages changed the caller's key / message / hasher lists (position %d)", i)
+			}
+		}
+		return r
 	case "batch":
 		var ss []crypto.Signature
 		for i := 0; i < nb; i++ {
@@ -420,7 +582,14 @@ func (env *c19Env) apply(o c19Op) string {
 			}
 			ss = append(ss, s)
 		}
-		bs, err := crypto.BatchVerifyBLSSignaturesOneMessage(env.pks, ss, env.msgs[o.M], env.kmac)
+		pks := append([]crypto.PublicKey{}, env.pks...)
+		ssCopy := append([]crypto.Signature{}, ss...)
+		bs, err := crypto.BatchVerifyBLSSignaturesOneMessage(pks, ss, env.msgs[o.M], env.kmac)
+		for i := range pks {
+			if pks[i] != env.pks[i] || len(ss[i]) != len(ssCopy[i]) || (len(ss[i]) > 0 && &ss[i][0] != &ssCopy[i][0]) {
+				env.fail("BatchVerifyBLSSignaturesOneMessage changed the caller's key / signature lists (position %d)", i)
+			}
+		}
 		if err != nil {
 			return "err"
 		}
@@ -447,7 +616,7 @@ func (env *c19Env) apply(o c19Op) string {
 	panic("unknown op " + o.Op)
 }
 
-var c19Kinds = []string{"kmac", "blssign", "blsverify", "pop", "spock", "spockdata", "agg1", "aggn", "batch", "ecsign", "ecverify"}
+var c19Kinds = []string{"kmac", "blssign", "blsverify", "pop", "spock", "spockdata", "agg1", "aggn", "batch", "ecsign", "ecverify", "popgen"}
 
 func c19Gen(tier string, r *rand.Rand) []Case {
 	n := 36
@@ -460,6 +629,13 @@ func c19Gen(tier string, r *rand.Rand) []Case {
 		nm := 2 + r.IntN(3)
 		for j := 0; j < nm; j++ {
 			in.Msgs = append(in.Msgs, hx(rbytes(r, r.IntN(200))))
+		}
+		if k%4 == 2 {
+			// message shapes: empty, one byte, exactly one cSHAKE128 block, many blocks
+			in.Msgs, nm = []string{"", hx(rbytes(r, 1)), hx(rbytes(r, 168)), hx(rbytes(r, 5000))}, 4
+		}
+		if k%12 == 5 {
+			in.G, in.Rep = []int{16, 33}[k/12%2], 2 // more goroutines than processors
 		}
 		nops := 6 + r.IntN(8)
 		for j := 0; j < nops; j++ {
@@ -568,6 +744,10 @@ func c19Run(c Case) (Result, error) {
 			cc = d8([]byte(cc))
 		}
 		items = append(items, fmt.Sprintf("mkOp %s %s %s %s %s", cqs(in.Ops[i].Op), cqs(before[i]), cqs(after[i]), cqs(sq), cqs(cc)))
+	}
+	env.checkKept()
+	if env.viol != "" {
+		return Result{}, implViolation("%s", env.viol)
 	}
 	c19ColdMu.Lock()
 	cf := c19ColdFailure
